@@ -63,6 +63,14 @@ mod identify_schema {
     include!(concat!(env!("OUT_DIR"), "/identify.rs"));
 }
 
+/// Verification hooks: the prost-generated `identify.proto` message and the payload limit.
+#[cfg(feature = "verif")]
+pub mod verif {
+    pub use super::identify_schema::Identify as SchemaIdentify;
+    /// Maximum identify payload size as compiled.
+    pub const VERIF_IDENTIFY_PAYLOAD_SIZE: usize = super::IDENTIFY_PAYLOAD_SIZE;
+}
+
 /// Identify configuration.
 pub struct Config {
     /// Protocol name.
